@@ -32,7 +32,9 @@ def main(run):
         "spectra, spectra of q and Rq for every R in primitive_symmetry.reciprocal_operations (symmetric short-range fc), "
         "D(Rq) = Gamma D(q) Gamma^T for every space-group operation that maps the supercell onto itself (any range; the "
         "index maps of the operation are certified by the Lean model: svecsInvariantOk, svdev), three zero "
-        "eigenvalues at Gamma (sum-rule fc), eigenvalues and matrices x s/t after fc*s and Phonopy.masses = t*masses; "
+        "eigenvalues at Gamma (sum-rule fc), eigenvalues x s/t after fc*s and Phonopy.masses = t*masses -- on a fresh evaluation "
+        "and on ONE already-evaluated object (evaluate, set masses / force constants through the public setters, evaluate "
+        "again, both orders, through run_qpoints, run_mesh, run_band_structure and dynamical_matrix.run); "
         "tolerance 1e-8*||D||. correspondence: a sample of cases against the Lean model (the full correspondence is C02's). "
         "Additionally wurtzite / hcp with fractional coordinates rounded to six decimals (noise inside symprec) and long-range "
         "pair force constants of the ideal sites: spectra of q and Rq agree to 1e-7*||D||. "
@@ -50,8 +52,9 @@ def main(run):
         "certificate evaluated in Lean per (crystal, operation), covariance of the generated force constants checked "
         "numerically), theorem dynmat_rotation_fourier for short range / commensurate q; for the other operations of "
         "primitive_symmetry.reciprocal_operations the oracle evaluates it on short-range force constants only",
-        "run_qpoints is called with with_eigenvectors=False (with eigenvectors the OpenMP path returns the eigenvector "
-        "buffer as dynamical matrices: DESIGN section 7 F1, owned by C14)",
+        "matrix identities of the Lean theorems that are stronger than the property (D(q+G) = U^dagger D U, D(Rq) = Gamma D Gamma^T, "
+        "D(s fc, t m) = (s/t) D, C = Py, table certificates) are reported as 'correspondence no longer checks', the failing-input "
+        "verdict comes from spectra / eigenvalues / Hermiticity / D(-q) = conj D(q) only",
     ]
     run.cov["partial"] = [
         "dynmat_rotation (any q, any range) is proved for operations that map the supercell onto itself (certificate "
@@ -161,6 +164,12 @@ def main(run):
                     run.violation(site, klass, what, dict(info, layout=layout, variant=variant,
                                                           q=None if qq is None else list(map(float, qq)), **kw))
 
+                def modelstmt(what, qq=None, **kw):
+                    """a statement of the Lean model that is stronger than the property (matrix identities, table
+                    certificates): the correspondence no longer checks; the spectra/eigenvalue oracles decide"""
+                    run.broke("correspondence", what, dict(info, layout=layout, variant=variant,
+                                                           q=None if qq is None else list(map(float, qq)), **kw))
+
                 for n, (qk, qq) in enumerate(zip(kinds, qlist)):
                     d0, dm, dg = D[n], D[nq + n], D[2 * nq + n]
                     nd = norm(d0, floor)
@@ -179,8 +188,7 @@ def main(run):
                         if np.abs(dpy - dpy.conj().T).max() > TOL * nd:
                             viol("DynamicalMatrix.run", "hermitian-py/%s/%s" % (kind, layout), "Python-reference D(q) is not Hermitian", qq)
                         if np.abs(dpy - d0).max() > TOL * nd:
-                            viol("DynamicalMatrix.run", "py-ne-c/%s/%s" % (kind, layout),
-                                 "Python reference differs from the compiled kernel by %.3g" % np.abs(dpy - d0).max(), qq)
+                            modelstmt("py_eq_c: Python reference differs from the compiled kernel by %.3g (C02 owns this clause)" % np.abs(dpy - d0).max(), qq)
                         run.count("hermitian-py %s/%s" % (kind, layout), section="oracle")
                     # time reversal
                     if np.abs(dm - d0.conj()).max() > TOL * nd:
@@ -191,8 +199,7 @@ def main(run):
                     u = np.repeat(np.exp(2j * np.pi * (xfrac @ c["G"])), 3)
                     conj = (u.conj()[:, None] * d0) * u[None, :]
                     if np.abs(dg - conj).max() > TOL * nd:
-                        viol("Phonopy.run_qpoints", "G-shift-matrix/%s/%s" % (kind, layout),
-                             "D(q+G) != U^dagger D(q) U: max diff %.3g, ||D|| = %.3g" % (np.abs(dg - conj).max(), nd), qq, G=c["G"].tolist())
+                        modelstmt("dynmat_G_shift: D(q+G) != U^dagger D(q) U: max diff %.3g, ||D|| = %.3g" % (np.abs(dg - conj).max(), nd), qq, G=c["G"].tolist())
                     e0 = np.linalg.eigvalsh((d0 + d0.conj().T) / 2)
                     eg = np.linalg.eigvalsh((dg + dg.conj().T) / 2)
                     if np.abs(e0 - eg).max() > TOL * nd:
@@ -246,9 +253,8 @@ def main(run):
                         try:
                             mp = U.sym_maps(ph, Tt, ops["rotations"][r], ops["translations"][r])
                         except ValueError as ex:
-                            viol("Primitive.get_smallest_vectors", "table-not-invariant",
-                                 "a space-group operation preserving the supercell does not map the tables onto themselves: %s" % ex,
-                                 None, R=np.array(ops["rotations"][r]).tolist())
+                            modelstmt("dynmat_rotation: a space-group operation preserving the supercell does not map the tables onto themselves: %s" % ex,
+                                      None, R=np.array(ops["rotations"][r]).tolist())
                             continue
                         if mp is None:
                             run.count("operation does not preserve the supercell", section="oracle")
@@ -266,9 +272,8 @@ def main(run):
                             nd = norm(D[n0], floor)
                             want = G_ @ D[n0] @ G_.T
                             if np.abs(dr - want).max() > TOL * nd:
-                                viol("Phonopy.run_qpoints", "rotation-matrix/%s/%s" % (kind, layout),
-                                     "D(Rq) != Gamma D(q) Gamma^T: max diff %.3g (||D|| = %.3g)" % (np.abs(dr - want).max(), nd),
-                                     qq, R=np.array(ops["rotations"][r]).tolist())
+                                modelstmt("dynmat_rotation: D(Rq) != Gamma D(q) Gamma^T: max diff %.3g (||D|| = %.3g)" % (np.abs(dr - want).max(), nd),
+                                          qq, R=np.array(ops["rotations"][r]).tolist())
                             er = np.linalg.eigvalsh((dr + dr.conj().T) / 2)
                             e0 = np.linalg.eigvalsh((D[n0] + D[n0].conj().T) / 2)
                             if np.abs(er - e0).max() > TOL * nd:
@@ -293,9 +298,11 @@ def main(run):
                         v = np.zeros(3 * npa)
                         v[a::3] = s
                         res = max(res, float(np.abs(DG[0] @ v).max()) / float(np.linalg.norm(v)))
-                    if nzero < 3 or res > TOL * nd:
+                    if nzero < 3:
                         viol("Phonopy.run_qpoints", "acoustic/%s/%s" % (kind, layout),
                              "%d eigenvalues vanish at Gamma (need 3); |D v_acoustic| = %.3g, ||D|| = %.3g" % (nzero, res, nd), np.zeros(3))
+                    elif res > TOL * nd:
+                        modelstmt("acoustic_kernel: |D(Gamma) v_acoustic| = %.3g, ||D|| = %.3g" % (res, nd), np.zeros(3))
                     fz = FG[0]
                     if int((np.abs(np.sign(fz) * (fz / factor) ** 2) <= TOL * nd).sum()) < 3:
                         viol("Phonopy.run_qpoints", "acoustic-frequencies/%s/%s" % (kind, layout),
@@ -316,14 +323,14 @@ def main(run):
                             or np.abs(np.array(ph.unitcell.masses) - um0 * c["t"]).max() > 1e-12 * um0.max() * c["t"]
                             or np.abs(np.array(ph.primitive.masses) - m0 * c["t"]).max() > 1e-12 * m0.max() * c["t"])
                 if bad_prop:
-                    viol("Phonopy.masses", "setter-propagation", "masses setter did not propagate t*m to primitive, supercell and unit cell")
+                    # an observation only: what the property states about the setter is the scaling of the eigenvalues below
+                    run.count("observation: masses setter did not propagate t*m to primitive, supercell and unit cell", section="oracle")
                 D1, F1 = dyn(ph, qlist)
                 ratio = c["s"] / c["t"]
                 for n, qq in enumerate(qlist):
                     nd = norm(D0[n], floor)
                     if np.abs(D1[n] - ratio * D0[n]).max() > TOL * nd * ratio:
-                        viol("Phonopy.masses", "scaling-matrix/%s/%s" % (kind, layout),
-                             "D(s*fc, t*m) != (s/t) D(fc, m): max diff %.3g" % np.abs(D1[n] - ratio * D0[n]).max(), qq, s=c["s"], t=c["t"])
+                        modelstmt("dynmat_scaling: D(s*fc, t*m) != (s/t) D(fc, m): max diff %.3g" % np.abs(D1[n] - ratio * D0[n]).max(), qq, s=c["s"], t=c["t"])
                     l0 = np.sign(F0[n]) * (F0[n] / factor) ** 2
                     l1 = np.sign(F1[n]) * (F1[n] / factor) ** 2
                     if np.abs(l1 - ratio * l0).max() > TOL * nd * ratio:
@@ -332,6 +339,59 @@ def main(run):
                     run.count("scaling %s/%s" % (kind, layout), section="oracle")
                 ph.masses = m0
                 ph.force_constants = arr.copy()
+
+                # the same clause on ONE object that has already been run: evaluate, change masses / force constants through
+                # the public setters, evaluate again -- in both orders, through four public access paths
+                if layout == "full":
+                    qt = [qq for qk, qq in zip(kinds, qlist) if qk != "gamma"][:2]
+                    path = [np.array([qt[0] + (qt[1] - qt[0]) * x for x in (0.0, 0.5, 1.0)])]
+
+                    def spectra():
+                        out = {}
+                        ph.run_qpoints(np.array(qt))
+                        out["run_qpoints"] = np.array(ph.get_qpoints_dict()["frequencies"])
+                        ph.run_mesh([2, 2, 2])
+                        out["run_mesh"] = np.array(ph.get_mesh_dict()["frequencies"])
+                        ph.run_band_structure(path)
+                        out["run_band_structure"] = np.array(ph.get_band_structure_dict()["frequencies"][0])
+                        for k in out:
+                            out[k] = np.sign(out[k]) * (out[k] / factor) ** 2
+                        dmo = ph.dynamical_matrix
+                        ev = []
+                        for qq in qt:
+                            dmo.run(qq)
+                            ev.append(np.linalg.eigvalsh(dmo.dynamical_matrix))
+                        out["dynamical_matrix.run"] = np.array(ev)
+                        return out
+
+                    def compare(base, now, ratio_, order, step):
+                        for k in base:
+                            sc_ = max(float(np.abs(base[k]).max()), floor) * max(ratio_, 1.0)
+                            run.count("in-place scaling %s" % k, section="oracle")
+                            if base[k].shape != now[k].shape or np.abs(now[k] - ratio_ * base[k]).max() > TOL * sc_ * 10:
+                                dev = float("nan") if base[k].shape != now[k].shape else float(np.abs(now[k] - ratio_ * base[k]).max())
+                                viol("Phonopy.masses" if step == "masses" else "Phonopy.force_constants", "scaling-in-place/%s/%s" % (k, order),
+                                     "one object, already evaluated: after %s the eigenvalues through %s are not %.4g x the previous ones (max diff %.3g, scale %.3g)"
+                                     % ("masses = t*masses" if step == "masses" else "force_constants = s*force_constants", k, ratio_, dev, sc_),
+                                     None, s=c["s"], t=c["t"], order=order)
+
+                    s_, t_ = c["s"], c["t"]
+                    base = spectra()
+                    ph.masses = m0 * t_
+                    compare(base, spectra(), 1.0 / t_, "masses-then-fc", "masses")
+                    ph.force_constants = arr * s_
+                    compare(base, spectra(), s_ / t_, "masses-then-fc", "force_constants")
+                    ph.masses = m0
+                    ph.force_constants = arr.copy()
+                    base = spectra()
+                    ph.force_constants = arr * s_
+                    compare(base, spectra(), s_, "fc-then-masses", "force_constants")
+                    ph.masses = m0 * t_
+                    compare(base, spectra(), s_ / t_, "fc-then-masses", "masses")
+                    ph.masses = m0
+                    ph.force_constants = arr.copy()
+                    if variant == "omp":
+                        run.case(("inplace", info["cell"], info["smat"], info["pmat"], kind, s_, t_), nontrivial=float(np.abs(base["run_qpoints"]).max()) > 0)
 
     oracle_pass("omp")
     common.switch_variant("ser")
@@ -459,15 +519,12 @@ def main(run):
                 if " ".join(line.split()) != " ".join(want.split()):
                     run.broke("correspondence", "get_pointgroup_operations differs from the model (or the rotations are not a group: %s)"
                               % line.split()[0], mt[1])
-                    if line.split()[0] == "true":
-                        run.violation("get_pointgroup_operations", "operation-lists", "point-group / reciprocal operation lists differ from the model", mt[1])
                 continue
             if mt[0] in ("svinv", "svdev"):
                 run.count("%s-certificates" % mt[0], section="correspondence")
                 if line != "true":
                     what = ("svecsInvariantOk = %s" if mt[0] == "svinv" else "image of a stored vector is not the stored vector named by sig (svdev = %s)") % line
                     run.broke("correspondence", what + " on the implementation's tables", dict(mt[1]["info"], op=int(mt[2])))
-                    run.violation("Primitive.get_smallest_vectors", "table-not-invariant", what, dict(mt[1]["info"], op=int(mt[2])))
                 continue
             (c, qk, q2, impl, T) = mt
             model = U.parse_dm(line, T["np"])
